@@ -166,7 +166,7 @@ pub fn program(c: usize, prog: &str) -> Script {
 
 /// Generated programs `gen:<prefix>:<i.j.k>:<suffix>`: a prefix of preparatory batches, one batch made
 /// of up to three items of the alphabet below, and a probe batch.
-pub const GEN_ITEMS: &[&str] = &["P(a,T1)", "P(a,T2)", "P(b,T2)", "B(a)E", "B(b)E", "D(S,a)", "C(S,a)", "C(S,b)", "P(,T3)B()E"];
+pub const GEN_ITEMS: &[&str] = &["P(a,T1)", "P(a,T2)", "P(b,T2)", "B(a)E", "B(b)E", "D(S,a)", "C(S,a)", "C(S,b)", "P(,T3)B()E", "C(P,)", "B(a<-a)E(a)", "C(P,a)"];
 
 fn gen_item(c: usize, i: usize, n: &mut usize) -> Vec<u8> {
     let t1 = format!("SELECT 'T1' /*by c{}*/", c);
@@ -188,6 +188,14 @@ fn gen_item(c: usize, i: usize, n: &mut usize) -> Vec<u8> {
             b.extend(be("", &tg));
             b
         }
+        // portals: close the unnamed portal; a portal named like the statement it is bound to; close it
+        9 => wire::close(b'P', ""),
+        10 => {
+            let mut b = wire::bind("a", "a", &[], &[Some(tg.as_bytes().to_vec())], &[]);
+            b.extend(wire::execute("a", 0));
+            b
+        }
+        11 => wire::close(b'P', "a"),
         _ => panic!("gen item"),
     }
 }
@@ -221,7 +229,7 @@ pub fn gen_batches(c: usize, name: &str) -> Vec<(Vec<u8>, String)> {
 fn gen_class(name: &str) -> &'static str {
     let items = name.split(':').nth(2).unwrap_or("");
     let idx: Vec<usize> = items.split('.').filter(|x| !x.is_empty()).map(|x| x.parse().unwrap()).collect();
-    let uses_a = idx.iter().any(|i| [0, 1, 3, 5, 6].contains(i));
+    let uses_a = idx.iter().any(|i| [0, 1, 3, 5, 6, 10].contains(i));
     let uses_b = idx.iter().any(|i| [2, 4, 7].contains(i));
     let uses_u = idx.iter().any(|i| *i == 8);
     if [uses_a, uses_b, uses_u].iter().filter(|x| **x).count() >= 2 {
@@ -413,7 +421,7 @@ pub fn build(tier: &str) -> SimCheck {
         oracle: Box::new(oracle),
         bound: if thorough { 3 } else { 2 },
         limits: Limits { max_wall_s: if thorough { 1500.0 } else { 50.0 }, ..Default::default() },
-        rule: "generated: every batch of <= 2 (thorough 3) items over {P(a,T1), P(a,T2), P(b,T2), B(a)E, B(b)E, D(S,a), C(S,a), C(S,b), unnamed P B E} after the prefixes {none, a prepared, a and b prepared}, followed by a probe Bind of a or b, kept when valid on a direct connection, x cache size {1,2,8}; hand-written: scenario = server/pool statement cache size {1,2,8} x pool_size {1,2} x one or two client programs over shared names a/b (prepare then bind across transactions, two names, Describe, Close + re-Parse with new text, two Binds in one batch, LRU order, structurally colliding (text, n, types) encodings, same text with other types, Parse+Bind pairs in one batch, case variants, rejected Parse, a simple-protocol PREPARE (which makes the pooler DEALLOCATE ALL at check-in) between uses of a protocol-level statement); all schedules with <= bound deviations; oracle = direct-connection reference per client".into(),
+        rule: "generated: every batch of <= 2 (thorough 3) items over {P(a,T1), P(a,T2), P(b,T2), B(a)E, B(b)E, D(S,a), C(S,a), C(S,b), unnamed P B E, C(P,''), B E on a portal named like its statement, C(P,a)} after the prefixes {none, a prepared, a and b prepared}, followed by a probe Bind of a or b, kept when valid on a direct connection, x cache size {1,2,8}; hand-written: scenario = server/pool statement cache size {1,2,8} x pool_size {1,2} x one or two client programs over shared names a/b (prepare then bind across transactions, two names, Describe, Close + re-Parse with new text, two Binds in one batch, LRU order, structurally colliding (text, n, types) encodings, same text with other types, Parse+Bind pairs in one batch, case variants, rejected Parse, a simple-protocol PREPARE (which makes the pooler DEALLOCATE ALL at check-in) between uses of a protocol-level statement); all schedules with <= bound deviations; oracle = direct-connection reference per client".into(),
         assumptions: vec!["the reference backend without a pooler defines the direct-connection behaviour; synthesised ParseComplete/CloseComplete may be reordered within a reply".into()],
     }
 }
